@@ -83,6 +83,8 @@ class _Tr:
                 continue                                   # tolerance-shape validation (modelled separately)
             if isinstance(s, ast.Assign) and len(s.targets) == 1 and isinstance(s.targets[0], ast.Name):
                 out.append(("assign", s.targets[0].id, self.expr(s.value)))
+            elif isinstance(s, ast.AnnAssign) and isinstance(s.target, ast.Name) and s.value is not None and s.simple:
+                out.append(("assign", s.target.id, self.expr(s.value)))      # `x: Array = …` (annotation is not semantics)
             elif isinstance(s, ast.AugAssign) and isinstance(s.target, ast.Name) and isinstance(s.op, ast.Mult):
                 out.append(("imul", s.target.id, self.expr(s.value)))
             elif isinstance(s, ast.Return):
